@@ -689,9 +689,8 @@ NOT PROVED: the floating-point reading of all coordinate statements (they are ov
   monotone rounding that fixes the integers; that IEEE-754 division is such a rounding is outside
   Lean here (no IEEE model installed, DESIGN.md §9/§11).
 
-NOT PROVED: C12_hex3_edge_face_counts — the number of identifiers `iter_edges` / `iter_faces` yield on
-  the hex grid (needs the two-sided `face_id` walk and `edge_id` traversal evaluated on the grid);
-  compared with the implementation for every size of the box.
+(The hex grid's edge and face counts, formerly listed here, are proved in Props/C12d.lean:
+  C12_hex3_counts_all.  The tetrahedral split grid is `unimplemented!()` in the code: nothing to prove.)
 -/
 
 /-- `CMapBuilder::build` on a valid 2-D descriptor (positive counts and cell lengths, plain grid)
